@@ -329,6 +329,10 @@ def initial_pool(rng, F):
     pool.append(make_qb(rng, F, "qint8", rand_shape(rng)))
     pool.append(make_qb(rng, F, rng.choice(["qint8", "e4m3"]), [rng.randrange(2, 5), rng.randrange(2, 6)], axis=rng.choice([0, -1])))
     pool.append(make_qb(rng, F, "qint8", [rng.randrange(2, 4), rng.randrange(2, 4), rng.randrange(2, 5)], axis=rng.choice([0, -1])))
+    # per-axis tensors with a dimension of size 1 (the weight of Linear(1, N), a single row …)
+    n1 = rng.randrange(2, 7)
+    pool.append(make_qb(rng, F, rng.choice(["qint8", "e4m3"]), [n1, 1], axis=0))
+    pool.append(make_qb(rng, F, "qint8", [1, n1], axis=-1))
     k = rng.choice([4, 6, 8])
     pool.append(make_qb(rng, F, "qint8", [rng.randrange(2, 5), k]))
     pool.append(make_qb(rng, F, "qint8", [k, rng.randrange(2, 5)]))
